@@ -109,6 +109,8 @@ func c11Universe(thorough bool) []any {
 		1<<53 - 1, 1 << 53, 1<<53 + 1, 9223372036854775807, -9223372036854775807 - 1,
 		univ.Big("9223372036854775808"), univ.Big("-9223372036854775809"), univ.Big("18446744073709551616"),
 		univ.Big("1000000000000000000000000000000"), univ.Big("1000000000000000000000000000001"), univ.Big("-1000000000000000000000000000000"),
+		// integers beyond the range of a double (they meet the doubles below 2^53 in comparisons), and neighbours above 2^53
+		univ.Big("1" + strings.Repeat("0", 400)), univ.Big("-1" + strings.Repeat("0", 400)), univ.Big("-1" + strings.Repeat("0", 309)), 1<<53 + 2, -(1<<53 + 1),
 		"", "a", "A", "aa", "ab", "abc", "b", "e", "é", "日本", "😀", "＀", "a\x00", "a b", "1", "10", "9",
 		[]any{}, J(`[null]`), J(`[0]`), J(`[1]`), J(`[1,2]`), J(`[1,3]`), J(`[2]`), J(`[1,2,3]`), J(`[[1]]`), J(`[[1],2]`), J(`["a"]`),
 		J(`[[]]`), J(`[{}]`), J(`[0,[]]`), J(`[1,[2]]`), J(`[1,2,null]`), J(`[0.5]`), J(`[18446744073709551616]`),
@@ -398,6 +400,8 @@ func c11ArrayUniverse() []any {
 	J := univ.J
 	return []any{
 		nil, false, true, 0, 1, 1.0, 2, -1, 0.5, univ.Big("18446744073709551616"), univ.Big("1"),
+		// neighbours above 2^53 (equal as doubles, different as integers) and an integer beyond the doubles
+		9007199254740992, 9007199254740993, json.Number("9007199254740993"), univ.Big("-1" + strings.Repeat("0", 400)),
 		"", "a", "b", "ab", "é",
 		[]any{}, J(`[1]`), J(`[1,2]`), J(`[2]`), J(`["a"]`), J(`[[1]]`),
 		map[string]any{}, J(`{"a":1}`), J(`{"a":1,"b":0}`), J(`{"a":1,"b":1}`), J(`{"a":2}`), J(`{"b":1}`), J(`{"a":null,"b":1}`), J(`{"a":[1]}`),
